@@ -316,6 +316,17 @@ InitRel_memory_rooms_reduced(p, good, bad, s) ==
       \E e1 \in FloorCells(g) \ {a, b} : \E e2 \in FloorCells(g) \ {a, b, e1} :
          s = St(SetCell(SetCell(SetCell(g, b, Beacon(good)), e1, Exit(good)), e2, Exit(bad)), a, "F", NoneObj)
 
+\* ------------------------------------------------- coin_maze (examples/coin_env.py)
+CoinObj == Obj("Coin", 0, "NONE")
+CoinMazeBase ==
+  LET g0 == [i \in 1..7 |-> [j \in 1..9 |-> IF i = 1 \/ i = 7 \/ j = 1 \/ j = 9 THEN Wall ELSE CoinObj]]
+      g1 == SetCells(g0, BorderPositions(<<<<2, 4>>, <<2, 6>>>>), Wall)
+  IN SetCell(SetCell(g1, <<2, 3>>, CoinObj), <<4, 5>>, CoinObj)
+Init_coin_maze ==
+  {St(SetCell(CoinMazeBase, q, Floor), q, o, NoneObj) :
+     q \in {c \in GPositions(CoinMazeBase) : Cell(CoinMazeBase, c).t = "Coin"}, o \in Oris}
+WellFormed_coin_maze(st) == st \in Init_coin_maze /\ WFBase(st, <<7, 9>>)
+
 \* ---------------------------------------------------------------- dispatch
 WellFormed(f, p, st) ==
   CASE f = "empty" -> WellFormed_empty(p, st)
@@ -326,6 +337,7 @@ WellFormed(f, p, st) ==
     [] f = "teleport" -> WellFormed_teleport(p, st)
     [] f = "memory" -> WellFormed_memory(p, st)
     [] f = "memory_rooms" -> WellFormed_memory_rooms(p, st)
+    [] f = "coin_maze" -> WellFormed_coin_maze(st)
 Honourable(f, p) ==
   CASE f = "empty" -> Honourable_empty(p)
     [] f = "rooms" -> Honourable_rooms(p)
@@ -335,6 +347,7 @@ Honourable(f, p) ==
     [] f = "teleport" -> Honourable_teleport(p)
     [] f = "memory" -> Honourable_memory(p)
     [] f = "memory_rooms" -> Honourable_memory_rooms(p)
+    [] f = "coin_maze" -> TRUE
 MustAccept(f, p) ==
   CASE f = "empty" -> MustAccept_empty(p)
     [] f = "rooms" -> MustAccept_rooms(p)
@@ -344,6 +357,7 @@ MustAccept(f, p) ==
     [] f = "teleport" -> MustAccept_teleport(p)
     [] f = "memory" -> MustAccept_memory(p)
     [] f = "memory_rooms" -> MustAccept_memory_rooms(p)
+    [] f = "coin_maze" -> TRUE
 \* generative sets for the functions whose parameters fit a record (drift / model checking)
 HasInit(f) == f \in {"empty", "rooms", "dynamic_obstacles", "keydoor", "crossing", "teleport", "memory"}
 InitSet(f, p) ==
